@@ -293,5 +293,5 @@ MANIFEST = {
             "running the real ReportStreamValue and the real StreamWorkflowReplicationMessages handler in default, LCM and routing modes on boundary sweeps and random "
             "histories and comparing outcome, lock state, counter, slice length and active list with the extracted model.",
     "note": "Trusted: Coq kernel, extraction, harness fakes. Modelled not verified: mutex as boolean, atomic add as int32 wrap, slices.Grow as zero-filling resize, Atoi acceptance, "
-            "termination of the stream body (C06/C08).",
+            "termination of the stream body (C06/C08). A well-formed witness stream pair stays up on the routing-mode shard manager and is probed (WC) after the odd streams; a handler that returns OK without having opened the stream towards the serving cluster is classified 'dropped'. Intra-proxy streams are run with (intra) and without (intra0: refused with an error, F14) an intra-proxy manager.",
 }
